@@ -1,18 +1,18 @@
 CONSTANTS
-  FlowSet = {"flows/a.yaml", "flows/b.yaml", "flows/c.yaml"}
+  FlowSet = {"flows/a.yaml", "flows/b.yaml"}
   Endpoints = {"configuration", "apply_flows"}
   Methods = {"PUT", "POST"}
-  MaxNth = 6
+  MaxNth = 4
   WithBadB64 = TRUE
-  GwOld = {"none", "g1"}
-  AnchorFlows = {}
+  GwOld = {"none"}
+  AnchorFlows = {"flows/a.yaml"}
   Paths <- PathsMC
   Cat <- CatMC
   Txns = {1}
   RestoreWrongDirection = FALSE
   PublishBeforeInit = FALSE
   ContinueAfter405 = FALSE
-  ApplyNoBackup = FALSE
+  ApplyNoBackup = TRUE
 SPECIFICATION SpecMC
 INVARIANTS DiskAtomic BehavAtomic NeverHalf OneConfig
 CHECK_DEADLOCK FALSE
